@@ -148,6 +148,10 @@ impl<'a> Suite<'a> {
 		clause.starts_with(&format!("{}:", self.prop))
 	}
 
+	pub fn parse_fail_pub(resp: &str) -> Vec<String> {
+		Self::parse_fail(resp)
+	}
+
 	fn parse_fail(resp: &str) -> Vec<String> {
 		if resp == "ok" {
 			return vec![];
@@ -1036,6 +1040,9 @@ pub fn field_variants() -> Vec<Variant> {
 	v.push(("san-uri", Box::new(|p| p.san = vec![San::Uri("https://example.com/x".into())])));
 	v.push(("san-ip4", Box::new(|p| p.san = vec![San::Ip(IpAddr::V4(Ipv4Addr::new(192, 0, 2, 1)))])));
 	v.push(("san-ip6", Box::new(|p| p.san = vec![San::Ip(IpAddr::V6(Ipv6Addr::LOCALHOST))])));
+	v.push(("san-ip6-v4-mapped", Box::new(|p| p.san = vec![San::Ip(IpAddr::V6(Ipv4Addr::new(192, 0, 2, 7).to_ipv6_mapped()))])));
+	v.push(("san-ip6-v4-compatible", Box::new(|p| p.san = vec![San::Ip(IpAddr::V6(Ipv6Addr::from(0xc000_0207u128)))])));
+	v.push(("san-ip-mixed", Box::new(|p| p.san = vec![San::Ip(IpAddr::V4(Ipv4Addr::new(10, 0, 0, 1))), San::Ip(IpAddr::V6(Ipv4Addr::new(10, 0, 0, 1).to_ipv6_mapped())), San::Ip(IpAddr::V6(Ipv6Addr::UNSPECIFIED))])));
 	v.push(("san-other", Box::new(|p| p.san = vec![San::Other(vec![1, 3, 6, 1, 4, 1, 311, 20, 2, 3], "u@example".into())])));
 	v.push(("dn-utf8", Box::new(|p| p.dn = Dn(vec![(DnT::O, DnV::Utf8("Org é".into()))]))));
 	v.push(("dn-printable", Box::new(|p| p.dn = Dn(vec![(DnT::C, DnV::Printable("DE".into()))]))));
